@@ -232,8 +232,10 @@ func judgeEnvelopeOpt(set []*sealed, cand []byte, domain string, plain *sealed, 
 		}
 		return s
 	}
-	// R1: ConsumeTypedEnvelope with a record type of the requested domain
-	dest := &hrec{domain: domain}
+	// R1: ConsumeTypedEnvelope with a record type of the requested domain. Every typed
+	// receiver hands over a destination record that already HAS content (a caller that
+	// re-uses one record value); a refused envelope must leave it as it was (typed_test.go).
+	dest := &hrec{domain: domain, codec: destCodec, payload: destPayload}
 	env, err := record.ConsumeTypedEnvelope(cand, dest)
 	if err == nil {
 		if accept("typed", env, domain, dest) == nil {
@@ -241,6 +243,9 @@ func judgeEnvelopeOpt(set []*sealed, cand []byte, domain string, plain *sealed, 
 		}
 	} else if plain != nil {
 		j.fail = fmt.Sprintf("typed: the untouched envelope is refused under its own domain: %v", err)
+		return j
+	} else if dest.domain != domain || !bytes.Equal(dest.codec, destCodec) || !bytes.Equal(dest.payload, destPayload) {
+		j.fail = fmt.Sprintf("typed: the envelope is refused (%v) but the destination record was overwritten: payload %s -> %s", err, short(destPayload), short(dest.payload))
 		return j
 	}
 	// R2: ConsumeEnvelope (registry decides the record type)
@@ -275,7 +280,7 @@ func judgeEnvelopeOpt(set []*sealed, cand []byte, domain string, plain *sealed, 
 		return j
 	}
 	// R3 / R4: the real record types
-	pr := &peer.PeerRecord{}
+	pr, prWas := destPeerRecord()
 	if env, err := record.ConsumeTypedEnvelope(cand, pr); err == nil {
 		if accept("typed-peerrec", env, peer.PeerRecordEnvelopeDomain, pr) == nil {
 			return j
@@ -283,14 +288,22 @@ func judgeEnvelopeOpt(set []*sealed, cand []byte, domain string, plain *sealed, 
 	} else if plain != nil && plain.kind == "peerrec" {
 		j.fail = fmt.Sprintf("typed-peerrec: the untouched peer record envelope is refused: %v", err)
 		return j
+	} else if !samePeerRecord(pr, prWas) {
+		j.fail = fmt.Sprintf("typed-peerrec: the envelope is refused (%v) but the destination record was overwritten: %+v -> %+v", err, prWas, pr)
+		return j
 	}
-	rv := &circuitproto.ReservationVoucher{}
+	rv, rvWas := destVoucher()
 	if env, err := record.ConsumeTypedEnvelope(cand, rv); err == nil {
 		if accept("typed-voucher", env, circuitproto.RecordDomain, rv) == nil {
 			return j
 		}
 	} else if plain != nil && plain.kind == "voucher" {
 		j.fail = fmt.Sprintf("typed-voucher: the untouched voucher envelope is refused: %v", err)
+		return j
+	} else if !sameVoucher(rv, rvWas) && !authenticUnder(set, env, circuitproto.RecordDomain, poolOnly) {
+		// (ReservationVoucher.UnmarshalRecord fills its fields one by one: an AUTHENTIC payload that
+		// does not decode as a voucher may leave some behind; nothing unauthenticated may)
+		j.fail = fmt.Sprintf("typed-voucher: the envelope is refused (%v) but the destination record was overwritten: %+v -> %+v", err, rvWas, rv)
 		return j
 	}
 	// UnmarshalEnvelope performs no validation but must not panic
